@@ -154,7 +154,7 @@ pub const RULE_C12: &str = "CKKS layer: cases = the straight-line CKKS programs 
 
 fn op_strategy() -> impl Strategy<Value = Op> {
     prop_oneof![
-        2 => (any::<u8>(), 2u8..=8, 12u8..=48, 4u8..=12, any::<u8>(), any::<u64>()).prop_map(|(dst, limbs, ld, ptlb, mag_bits, seed)| Op::Enc { dst, limbs, ld, ptlb, mag_bits, seed }),
+        2 => (any::<u8>(), 2u8..=8, 12u8..=48, prop_oneof![2 => 4u8..=12, 1 => 13u8..=34], any::<u8>(), any::<u64>()).prop_map(|(dst, limbs, ld, ptlb, mag_bits, seed)| Op::Enc { dst, limbs, ld, ptlb, mag_bits, seed }),
         5 => (0u8..3, any::<u8>(), any::<u8>(), any::<u8>(), 1u8..=10, any::<bool>()).prop_map(|(kind, dst, a, b, limbs, assign)| Op::Bin { kind, dst, a, b, limbs, assign }),
         6 => (0u8..9, any::<u8>(), any::<u8>(), 1u8..=10, any::<u8>(), any::<bool>()).prop_map(|(kind, dst, a, limbs, arg, assign)| Op::Un { kind, dst, a, limbs, arg, assign }),
         1 => (any::<u8>(), any::<u8>()).prop_map(|(a, b)| Op::Align { a, b }),
@@ -178,7 +178,7 @@ fn strategy() -> BoxedStrategy<Case> {
         .boxed()
 }
 
-pub const RULE: &str = "cases = (backend, one of two parameter sets per family (radix 19/16 for FFT64, 52/30 for NTT120; N = 64/32; key dsize 1/2), a straight-line program: two fresh encryptions (independent limb counts 3..8, log_delta 14..44, plaintext budget 5..11, generated slot values) followed by 1..13 generated steps over a 4-register file among: encrypt, add/sub/mul (into a destination of 1..10 limbs or in place), neg, square, add / sub / mul with an encoded plaintext vector or a complex constant (RNX forms, independent plaintext precision), mul_pow2, div_pow2, rotate (keys present for some rotations, absent for others), conjugate, rescale, align, compact_limbs, reallocate_limbs). Oracle after every step: Result matches the model of the budget algebra (Ok, or the expected CKKSCompositionError kind; never a panic; metadata unchanged when an in-place step fails), (log_delta, log_budget) equal the model, log_delta + log_budget <= stored precision, and every live register decrypts and decodes to the shadow program on complex f64 within the tracked worst-case error bound (proportional to 2^-log_delta). non-trivial = at least two executed steps after adaptation.";
+pub const RULE: &str = "cases = (backend, one of two parameter sets per family (radix 19/16 for FFT64, 52/30 for NTT120; N = 64/32; key dsize 1/2), a straight-line program: two fresh encryptions (independent limb counts 3..8, log_delta 14..44, plaintext budget 5..11, generated slot values) followed by 1..13 generated steps over a 4-register file among: encrypt (plaintext budget up to 34 bits, slot magnitudes up to 2^31, so that both integer widths of the encoder / decoder occur), add/sub/mul (into a destination of 1..10 limbs or in place), neg, square, add / sub / mul with an encoded plaintext vector or a complex constant (RNX forms, independent plaintext precision), mul_pow2, div_pow2, rotate (keys present for some rotations, absent for others), conjugate, rescale, align, compact_limbs (result must have the minimum limb count), reallocate_limbs). Oracle after every step: Result matches the model of the budget algebra (Ok, or the expected CKKSCompositionError kind; never a panic; metadata unchanged when an in-place step fails), (log_delta, log_budget) equal the model, log_delta + log_budget <= stored precision, and every live register decrypts and decodes to the shadow program on complex f64 within the tracked worst-case error bound (proportional to 2^-log_delta). non-trivial = at least two executed steps after adaptation.";
 
 fn main() {
     install_panic_hook();
